@@ -59,7 +59,8 @@ fn check(id: &str, tier: Tier) -> i32 {
                             fails.push((
                                 framework::Failure::new("trace_hash_differs_across_processes", format!("{} vs {}", a, b),
                                     serde_json::json!({"process": p, "line_process0": a, "line_other": b})),
-                                serde_json::json!({"process_restart_seed_index": a.split(' ').next().unwrap_or("")}),
+                                serde_json::json!({"instances": [], "mode": "Interleave", "sched": {"v": []}, "fuel": 0,
+                                    "process_restart": {"seed": seed, "index": a.split(' ').next().and_then(|x| x.parse::<u64>().ok()).unwrap_or(0), "procs": 6}}),
                             ));
                         }
                     }
@@ -204,7 +205,8 @@ fn main() {
         Some("c12-worker") => {
             let seed: u64 = args.get(2).and_then(|s| s.parse().ok()).unwrap_or(1);
             let n: usize = args.get(3).and_then(|s| s.parse().ok()).unwrap_or(10);
-            props::c12::worker(seed, n);
+            let start: usize = args.get(4).and_then(|s| s.parse().ok()).unwrap_or(0);
+            props::c12::worker(seed, n, start);
             0
         }
         Some("replay") => {
